@@ -19,12 +19,13 @@ import (
 // ---------------------------------------------------------------------------
 
 type Walk struct {
-	Fn      *ssa.Function
-	Cut     func(b *ssa.BasicBlock, succ int) bool // edge b -> b.Succs[succ] is not followed
-	Barrier func(in ssa.Instruction) bool          // the walk does not continue past such an instruction
-	Track   *EqTrack                               // optional: follow the possible constant values of one expression
-	E       *Eng                                   // needed with Track
-	init    pctx                                   // context of the start points (FromEdgeCtx)
+	Fn        *ssa.Function
+	Cut       func(b *ssa.BasicBlock, succ int) bool // edge b -> b.Succs[succ] is not followed
+	Barrier   func(in ssa.Instruction) bool          // the walk does not continue past such an instruction
+	Track     *EqTrack                               // optional: follow the possible constant values of one expression
+	E         *Eng                                   // needed with Track
+	init      pctx                                   // context of the start points (FromEdgeCtx)
+	initFacts condFacts                              // what the starting edge asserts (FromEdgeCtx)
 }
 
 // EqTrack follows, along each path, which constants an expression (named by its canonical
@@ -546,7 +547,7 @@ func (w *Walk) runMode(startBlocks []*ssa.BasicBlock, startIdx []int, depth int)
 	}
 	var work []pt
 	for k, b := range startBlocks {
-		work = append(work, pt{b, startIdx[k], w.init, ^uint32(0), condFacts{}})
+		work = append(work, pt{b, startIdx[k], w.init, ^uint32(0), w.initFacts})
 	}
 	seen := map[sk]bool{}
 	midSeen := map[ssa.Instruction]bool{}
@@ -771,8 +772,18 @@ func (w *Walk) FromEdgeCtx(ec EdgeCtx) *Reached {
 	if startsWithPhi(t) {
 		w.init = ec.C.with(t.Index, predSlot(ec.B, t), ctxMax)
 	}
+	// the walk starts knowing what the edge it starts from asserts
+	w.initFacts = condFacts{}
+	if len(ec.B.Instrs) > 0 {
+		if iff, ok := ec.B.Instrs[len(ec.B.Instrs)-1].(*ssa.If); ok {
+			if ck, neg, ok := condKeyOf(iff.Cond, ec.C); ok {
+				w.initFacts = w.initFacts.with(ck, (ec.Succ == 0) != neg)
+			}
+		}
+	}
 	r := w.run([]*ssa.BasicBlock{t}, []int{0})
 	w.init = pctx{}
+	w.initFacts = condFacts{}
 	r.Edge[[2]int{ec.B.Index, t.Index}] = true
 	return r
 }
@@ -821,7 +832,9 @@ func LRe(re string, pos bool) LitM {
 	if !pos {
 		d = "¬" + d
 	}
-	return LitM{d, func(l Lit) bool { return l.Pos == pos && (rx.MatchString(l.Atom) || l.Alt != "" && rx.MatchString(l.Alt)) }}
+	return LitM{d, func(l Lit) bool {
+		return l.Pos == pos && (rx.MatchString(l.Atom) || l.Alt != "" && rx.MatchString(l.Alt))
+	}}
 }
 
 // LHas matches literals whose atom contains all the given substrings.
@@ -1387,8 +1400,8 @@ func (e *Eng) valsUnder(r *Reached, v ssa.Value, c *pctx) []ssa.Value {
 				if !esc && len(sts) > 0 {
 					n := 0
 					for _, st := range sts {
-						// only stores that were reached count
-						if r == nil || r.Instr[st] {
+						// only stores that were reached, and that can still be the cell's content at this load, count
+						if (r == nil || r.Instr[st]) && e.storeReaches(st, v, sts) {
 							n++
 							rec(st.Val, -2)
 						}
@@ -1409,6 +1422,32 @@ func (e *Eng) valsUnder(r *Reached, v ssa.Value, c *pctx) []ssa.Value {
 	}
 	rec(v, -1)
 	return out
+}
+
+// storeReaches: can the value written by st still be in the cell when ld reads it?  (Stores in other
+// functions — literals sharing the cell — are always possible; within one function a store is killed by any
+// other store of the same function on every path to the load.)
+func (e *Eng) storeReaches(st *ssa.Store, ld *ssa.UnOp, all []*ssa.Store) bool {
+	if st.Parent() != ld.Parent() {
+		return true
+	}
+	key := [2]ssa.Instruction{st, ld}
+	if v, ok := e.reachCache[key]; ok {
+		return v
+	}
+	others := map[ssa.Instruction]bool{}
+	for _, o := range all {
+		if o != st && o.Parent() == st.Parent() {
+			others[o] = true
+		}
+	}
+	w := &Walk{Fn: st.Parent(), Barrier: func(in ssa.Instruction) bool { return others[in] }}
+	res := w.After(st).Has(ld)
+	if e.reachCache == nil {
+		e.reachCache = map[[2]ssa.Instruction]bool{}
+	}
+	e.reachCache[key] = res
+	return res
 }
 
 // ValStrs renders a value set, sorted.
